@@ -41,12 +41,21 @@ def curl_reuse(ctx):
     ifs = [s for s in body if isinstance(s, ast.If) and D in unparse(s.test) and T in unparse(s.test)]
     if len(ifs) != 1:
         raise AnalysisError("make_scalar_hypersingular: no single test comparing the two spaces")
-    for same in (True, False):
+    # the source-side pair: the tuple assigned from compute_p1_curl_transformation(<trial space>, ...) before the test
+    src_pairs = [unparse(s.targets[0]).replace(" ", "") for s in body if isinstance(s, ast.Assign) and isinstance(s.targets[0], ast.Tuple)
+                 and unparse(s.value).replace(" ", "").startswith("compute_p1_curl_transformation(%s," % D)]
+    if len(src_pairs) != 1:
+        raise AnalysisError("make_scalar_hypersingular: the trial-side curl transformation pair was not found")
+    tgt_pair = None
+    for same in (False, True):
         effs = dispatch.effects([ifs[0]], {D: "s", T: "s" if same else "t"}, "make_scalar_hypersingular")
-        st = [e for e in effs if e[0] == "store" and "target" in e[1]]
+        st = [e for e in effs if e[0] == "store"]
         src = st[0][2].replace(" ", "") if len(st) == 1 else ""
         own = src.startswith("compute_p1_curl_transformation(%s," % T)
-        ok = len(st) == 1 and (own or (same and "source" in src and T not in src and D not in src))
+        if not same and len(st) == 1:
+            tgt_pair = st[0][1].replace(" ", "")  # what the different-spaces branch defines is the test-side pair
+        reuse = src.strip("()") == src_pairs[0].strip("()")
+        ok = len(st) == 1 and st[0][1].replace(" ", "") == tgt_pair and (own or (same and reuse))
         r.check(ok, "spaces %s" % ("equal" if same else "different"), FA, fn.name, ifs[0].lineno, "target curl transformation when the spaces are %s" % ("equal" if same else "different"),
                 "with %s test and trial spaces the test-side curl transformation is `%s`" % ("equal" if same else "different", src[:80]))
 
